@@ -1,9 +1,10 @@
 pub mod common;
 pub mod worlds;
+pub mod c03;
 pub mod c04;
 
 use crate::framework::CheckSpec;
 
 pub fn all_specs() -> Vec<CheckSpec> {
-  vec![c04::spec()]
+  vec![c03::spec(), c04::spec()]
 }
